@@ -3,13 +3,23 @@ mod dev;
 mod c09;
 mod fwc;
 mod fw_c01;
+mod fw_c02;
+mod fw_c08;
+mod fw_c03;
+mod c18;
 
 fn main() {
-    std::panic::set_hook(Box::new(|_| {}));
+    common::install_panic_hook();
     let args = common::parse_args();
     match args.stream.as_str() {
         "silencer" => c09::run(&args),
         "fw_c01" => fw_c01::run(&args),
+        "fw_c02" => fw_c02::run(&args),
+        "fw_c08" => fw_c08::run_c08(&args),
+        "fw_c19" => fw_c08::run_c19(&args),
+        "fw_c03" => fw_c03::run_c03(&args),
+        "fw_c17" => fw_c03::run_c17(&args),
+        "pbcodec" | "pbcodec-child" => c18::run(&args),
         s => {
             eprintln!("unknown stream {s}");
             std::process::exit(2);
